@@ -161,8 +161,9 @@ PREDS = [
 
 
 class Gen:
-    def __init__(self, rng):
+    def __init__(self, rng, force_bang=False):
         self.rng = rng
+        self.force_bang = force_bang      # development aid: every history may use utf8->string!
         self.v = []
         self.drew_nul = False
         self.ck = None            # kind of the last start/end arguments given to a SRFI 130 procedure
@@ -1037,7 +1038,7 @@ class Gen:
         self.v = []
         inits = []
         nstr = r.choice((1, 2, 3, 3))
-        self.bang = r.random() < 0.06
+        self.bang = r.random() < 0.06 or self.force_bang
         self.lit80 = r.random() < 0.05
         for i in range(3):
             cps = self.rcps() if i < nstr else []
@@ -1085,8 +1086,8 @@ class Gen:
         return {"id": hid, "form": form, "steps": steps, "lines": lines, "bang": isolate}
 
 
-def gen_histories(rng, n, prefix="h"):
-    g = Gen(rng)
+def gen_histories(rng, n, prefix="h", force_bang=False):
+    g = Gen(rng, force_bang)
     return [g.history("%s%d" % (prefix, i)) for i in range(n)]
 
 
@@ -1205,11 +1206,30 @@ def gen_port_cases(rng, n, tmpdir):
     """Strings with a multi-byte character straddling byte offset 4096 (and 8192) in the port buffer."""
     out = []
     g = Gen(rng)
+    # systematic part: every kind x width x split position at the buffer boundary that matters for the kind
+    # (file input is refilled 4092 bytes at a time: SEXP_PORT_BUFFER_SIZE - BUF_START; output buffers hold 4096 bytes)
+    combos = []
+    for kind in ("file-peek", "file-read-char", "file-read-string", "file-read-line", "out-char", "out-string", "out-mixed",
+                 "file-write-char", "in-peek", "in-read-char", "in-read-string", "in-read-line"):
+        for w in (1, 2, 3, 4):
+            for split in range(0, w):
+                if split == 0 and w > 1 and not kind.startswith("in-"):
+                    continue
+                if kind.startswith("in-") and split not in (0, 1):
+                    continue
+                bounds = (4092, 8184) if kind.startswith("file-") and kind != "file-write-char" else (4096,)
+                for bound in bounds:
+                    combos.append((kind, w, split, bound))
+    rng.shuffle(combos)
     for i in range(n):
-        w = (i % 4) + 1
+        if i < len(combos):
+            kind0, w, split, bound = combos[i]
+        else:
+            kind0 = None
+            w = (i % 4) + 1
+            split = rng.randrange(0, w) if w > 1 else 0        # bytes of the character before the boundary
+            bound = rng.choice((4096, 4092, 8184, 8192, 8191))
         c = rng.choice(ALPHA[w])
-        split = rng.randrange(0, w) if w > 1 else 0        # bytes of the character before the boundary
-        bound = rng.choice((4096, 4096, 4092, 8192, 8191, 4096 - 4))
         fill = rng.choice((0x61, 0x61, 0x78))
         pre_bytes = bound - split
         lead = []
@@ -1220,9 +1240,9 @@ def gen_port_cases(rng, n, tmpdir):
         if rng.random() < 0.3:
             tail = tail + [10] + [g.rchar() for _ in range(3)]
         cps = lead + [fill] * pad + [c] + tail
-        kind = rng.choice(("out-char", "out-string", "out-mixed", "in-read-char", "in-peek", "in-read-string",
-                           "in-read-line", "file-read-char", "file-peek", "file-read-string", "file-read-line",
-                           "file-write-char"))
+        kind = kind0 or rng.choice(("out-char", "out-string", "out-mixed", "in-read-char", "in-peek", "in-read-string",
+                                    "in-read-line", "file-read-char", "file-peek", "file-read-string", "file-read-line",
+                                    "file-write-char"))
         cid = "p%d" % i
         mk = "(string-append (S %s) (make-string %d %s) (S %s))" % (" ".join(map(str, lead)), pad, chx(fill),
                                                                    " ".join(map(str, [c] + tail)))
@@ -1293,7 +1313,9 @@ def gen_port_cases(rng, n, tmpdir):
         else:
             form = "(%%case* %s (flush-output-port) (let* ((s %s)) (%%obs-try (lambda () %s))))" % (cid, mk, body)
         line1 = cps[:cps.index(10)] if 10 in cps else cps
-        long_line = kind.endswith("read-line") and (len(enc(line1)) > 8191 if kind.startswith("file") else len(line1) > 8192)
+        # file ports: fgets takes at most 8191 bytes per call, the newline included; string ports: at most 8192 characters
+        long_line = kind.endswith("read-line") and ((len(enc(line1)) + (1 if 10 in cps else 0) > 8191) if kind.startswith("file")
+                                                    else len(line1) > 8192)
         out.append({"id": cid, "form": form, "expect": exp, "kind": kind, "w": w, "split": split, "bound": bound,
                     "long_line": long_line, "nul": 0 in cps})
     return out
@@ -1420,9 +1442,9 @@ def check(rep, tier, seed):
     b = B.ensure("hooks")
     rep.builds.add("hooks")
     quick = tier == "quick"
-    nh = 3000 if quick else 120000
-    nport = 120 if quick else 3000
-    nasan = 150 if quick else 6000
+    nh = 3000 if quick else 60000
+    nport = 160 if quick else 2000
+    nasan = 150 if quick else 4000
     env = {"CHIBI_VERIF_HEAPCHECK": 1}
     allprocs = []
 
@@ -1435,7 +1457,7 @@ def check(rep, tier, seed):
     for c0, c1 in zip(bounds, bounds[1:]):
         if c1 <= c0:
             continue
-        n1, procs = run_histories(rep, b, hs[c0:c1], "hooks", 20 if c0 == 0 else 50, env, timeout=15)
+        n1, procs = run_histories(rep, b, hs[c0:c1], "hooks", 20 if c0 == 0 else 50, env, timeout=30)
         nsteps += n1
         done = c1
         allprocs += procs
